@@ -13,6 +13,7 @@ import (
 	"os/exec"
 	"strings"
 	"sync/atomic"
+	"syscall"
 	"time"
 )
 
@@ -70,6 +71,7 @@ func (s *Solver) start() {
 		argv = append(argv, fmt.Sprintf("--tlimit-per=%d", s.timeoutMs))
 	}
 	s.cmd = exec.Command(argv[0], argv[1:]...)
+	s.cmd.SysProcAttr = &syscall.SysProcAttr{Pdeathsig: syscall.SIGKILL}
 	in, err := s.cmd.StdinPipe()
 	if err != nil {
 		panic(err)
